@@ -408,6 +408,12 @@ pub fn main(o: &Opts) -> i32 {
             let (n, b) = many_parties_check::<G>(if o.tier == Tier::Quick { MANY_QUICK } else { MANY_THOROUGH }, Some(&fixtures));
             content_n += n;
             bad.extend(b);
+            if o.tier == Tier::Thorough {
+                // one party, capacity beyond 2^16: generator indices must not wrap either
+                let (n, b) = content_checks::<G>(66_000, 1, Some(&fixtures));
+                content_n += n;
+                bad.extend(b);
+            }
             (nrep, nskip, views, bad, content_n)
         });
         replayed += nrep;
